@@ -38,7 +38,9 @@ theorem mem_remove_iff {x : Option Nat} {w : World} (h : WInvX x w) {e : Ent} (h
 structure SameCore (w w' : World) : Prop where
   ents : w'.ents = w.ents
   reqs : ∀ r, (w'.req r).msgId = (w.req r).msgId ∧ (w'.req r).dfd = (w.req r).dfd ∧ (w'.req r).alarm = (w.req r).alarm
-  timers : w'.timers = w.timers
+  /-- the same timers up to their due times (which the invariant does not mention) -/
+  timers : ∀ t, (∀ tm', w'.timers.get? t = some tm' → ∃ tm, w.timers.get? t = some tm ∧ tm'.kind = tm.kind ∧ tm'.status = tm.status) ∧
+    (∀ tm, w.timers.get? t = some tm → ∃ tm', w'.timers.get? t = some tm' ∧ tm'.kind = tm.kind ∧ tm'.status = tm.status)
   fired : w'.fired = w.fired
   connReqs : w'.connReqs = w.connReqs
   nextId : w'.nextId ≤ 65535
@@ -52,7 +54,15 @@ structure SameCore (w w' : World) : Prop where
     (∀ pr, w.protos.get? p = some pr → ∃ pr', w'.protos.get? p = some pr')
 
 theorem WInvX.sameCore {x : Option Nat} {w w' : World} (h : WInvX x w) (s : SameCore w w') : WInvX x w' := by
-  have hp : ∀ t k, Pending w' t k ↔ Pending w t k := by intro t k; simp [Pending, s.timers]
+  have hp : ∀ t k, Pending w' t k ↔ Pending w t k := by
+    intro t k
+    constructor
+    · rintro ⟨tm', a, b, c⟩
+      obtain ⟨tm, a1, a2, a3⟩ := (s.timers t).1 tm' a
+      exact ⟨tm, a1, by rw [← a3]; exact b, by rw [← a2]; exact c⟩
+    · rintro ⟨tm, a, b, c⟩
+      obtain ⟨tm', a1, a2, a3⟩ := (s.timers t).2 tm a
+      exact ⟨tm', a1, by rw [a3]; exact b, by rw [a2]; exact c⟩
   have hid : ∀ e, idOf w' e = idOf w e := by intro e; simp [idOf, (s.reqs e.rid).1]
   have hpr : ∀ p pr', w'.protos.get? p = some pr' → ∃ pr, w.protos.get? p = some pr ∧ pr'.addr = pr.addr ∧ pr'.state = pr.state ∧
       pr'.lost = pr.lost ∧ pr'.pingTimer = pr.pingTimer ∧ pr'.pingAlarm = pr.pingAlarm ∧ pr'.pingKeepalive = pr.pingKeepalive ∧ pr'.connReq = pr.connReq :=
@@ -65,7 +75,10 @@ theorem WInvX.sameCore {x : Option Nat} {w w' : World} (h : WInvX x w) (s : Same
   case keyId => rw [s.ents]; intro e he hq; rw [(s.reqs e.rid).1]; exact h.keyId e he hq
   case queueNoAlarm => rw [s.ents]; intro e he hq; rw [(s.reqs e.rid).2.2]; exact h.queueNoAlarm e he hq
   case idCounter => exact s.nextId
-  case timerFresh => rw [s.timers, s.nextTimer]; exact h.timerFresh
+  case timerFresh =>
+    intro t tm' ht
+    obtain ⟨tm, a, _⟩ := (s.timers t).1 tm' ht
+    rw [s.nextTimer]; exact h.timerFresh t tm a
   case firedFresh => rw [s.fired]; intro d hd; exact Nat.lt_of_lt_of_le (h.firedFresh d hd) s.nextDfd
   case crFresh => rw [s.connReqs, s.nextCR]; exact h.crFresh
   case protoFresh =>
